@@ -26,8 +26,8 @@ import (
 
 type C11TransportCase struct {
 	Chunks  [][]byte `json:"chunks"`
-	Session bool     `json:"session"` // a session is attached (otherwise the bare handler)
-	Logon   bool     `json:"logon"`   // a valid Logon precedes the hostile bytes
+	Session bool     `json:"session"`        // a session is attached (otherwise the bare handler)
+	Logon   bool     `json:"logon"`          // a valid Logon precedes the hostile bytes
 	Role    string   `json:"role,omitempty"` // "" / "acceptor": the bytes reach an Acceptor; "initiator": an Initiator
 }
 
